@@ -28,6 +28,11 @@ enum Call {
     AddSnap(usize, P, u8),
     GetSnap(usize),
     Reopen(usize),
+    /// add_version on handle 0 while its k-th git command fails ("before": not run; "after": run, then reported as failed;
+    /// "stop": this and every later command fail -- the process can do nothing more), followed by a restart of every handle
+    FaultAdd(P, u8, usize, String),
+    /// the same for add_snapshot
+    FaultSnap(P, u8, usize, String),
 }
 
 #[derive(Clone, Debug, Serialize, Deserialize)]
@@ -47,6 +52,31 @@ struct Mismatch {
     at: String,
     got: String,
     expected: String,
+    /// what failed, with the identifiers, positions and counts taken out: the same defect gives the same signature
+    signature: String,
+}
+
+fn normalize(s: &str) -> String {
+    // uuids -> ID, numbers -> N
+    let mut out = String::new();
+    let b: Vec<char> = s.chars().collect();
+    let mut i = 0;
+    while i < b.len() {
+        let is_hex = |c: char| c.is_ascii_hexdigit();
+        if i + 36 <= b.len() && b[i..i + 36].iter().enumerate().all(|(j, c)| if [8, 13, 18, 23].contains(&j) { *c == '-' } else { is_hex(*c) }) {
+            out.push_str("ID");
+            i += 36;
+        } else if b[i].is_ascii_digit() {
+            while i < b.len() && b[i].is_ascii_digit() {
+                i += 1;
+            }
+            out.push('N');
+        } else {
+            out.push(b[i]);
+            i += 1;
+        }
+    }
+    out
 }
 
 fn payload(k: u8) -> Vec<u8> {
@@ -110,7 +140,7 @@ impl World {
                 remote: Some(self.dir.join("bare.git").to_str().unwrap().to_string()),
                 local_only: false,
                 encryption_secret: b"secret".to_vec(),
-                git_path: None,
+                git_path: if self.kind == "git-fault" && h == 0 { Some(self.dir.join("gitwrap.sh")) } else { None },
             },
         }
     }
@@ -141,7 +171,19 @@ async fn fresh_world(dir: &Path, kind: &str) -> Result<World, String> {
     if kind == "local" {
         std::fs::create_dir_all(dir.join("srv")).unwrap();
     }
-    if kind.starts_with("git-remote") {
+    if kind == "git-fault" {
+        use std::os::unix::fs::PermissionsExt;
+        let d = dir.join("fault");
+        std::fs::create_dir_all(&d).unwrap();
+        let script = format!(
+            "#!/bin/sh\nD='{}'\nif [ -f \"$D/plan\" ]; then\n  read N MODE < \"$D/plan\"\n  C=$(cat \"$D/count\" 2>/dev/null || echo 0); C=$((C+1)); echo $C > \"$D/count\"\n  if [ \"$C\" -eq \"$N\" ] && [ \"$MODE\" = before ]; then exit 1; fi\n  if [ \"$C\" -eq \"$N\" ] && [ \"$MODE\" = after ]; then git \"$@\"; exit 1; fi\n  if [ \"$C\" -ge \"$N\" ] && [ \"$MODE\" = stop ]; then exit 1; fi\nfi\nexec git \"$@\"\n",
+            d.display()
+        );
+        let p = dir.join("gitwrap.sh");
+        std::fs::write(&p, script).unwrap();
+        std::fs::set_permissions(&p, std::fs::Permissions::from_mode(0o755)).unwrap();
+    }
+    if kind.starts_with("git-remote") || kind == "git-fault" {
         let ok = std::process::Command::new("git")
             .args(["init", "--bare", "-q", "bare.git"])
             .current_dir(dir)
@@ -163,7 +205,20 @@ async fn fresh_world(dir: &Path, kind: &str) -> Result<World, String> {
 }
 
 fn mm(sc: &Scenario, at: String, got: String, expected: String) -> Mismatch {
-    Mismatch { scenario: sc.clone(), at, got, expected }
+    // the signature names the failure, not the input: the injected fault's position and kind, the parent chosen, ids and counts
+    // are taken out, so that one defect shows as one signature and a different failure as a different one
+    let fault = sc.seq.iter().find_map(|c| match c {
+        Call::FaultAdd(..) => Some("add_version interrupted by a failing git command"),
+        Call::FaultSnap(..) => Some("add_snapshot interrupted by a failing git command"),
+        _ => None,
+    });
+    let phase = match at.rfind("): ") {
+        Some(i) if at.contains("Fault") => at[i + 3..].to_string(),
+        _ => at.split('(').next().unwrap_or("").to_string(),
+    };
+    let got_short: String = normalize(&got).chars().take(120).collect();
+    let signature = format!("{} | {} | {} | {}", sc.kind, fault.unwrap_or("no fault injected"), normalize(&phase), got_short);
+    Mismatch { scenario: sc.clone(), at, got, expected, signature }
 }
 
 /// Execute one call and check it against the contract. Ok(false) = the call is not applicable (skipped).
@@ -261,6 +316,101 @@ async fn step(w: &mut World, ch: &mut Chain, sc: &Scenario, label: &str, c: &Cal
                 }
                 Err(e) => Err(mm(sc, at, format!("Err({e})"), "Ok".into())),
             }
+        }
+        Call::FaultAdd(p, k, n, mode) | Call::FaultSnap(p, k, n, mode) => {
+            if w.kind != "git-fault" {
+                return Ok(false);
+            }
+            let is_add = matches!(c, Call::FaultAdd(..));
+            if !is_add && matches!(p, P::Nil | P::Unknown) {
+                return Ok(false);
+            }
+            let Some(parent) = ch.resolve(*p) else { return Ok(false) };
+            let data = payload(*k);
+            let fdir = w.dir.join("fault");
+            let _ = std::fs::remove_file(fdir.join("count"));
+            std::fs::write(fdir.join("plan"), format!("{n} {mode}\n")).unwrap();
+            let srv = w.handle(0).await.map_err(|e| mm(sc, at.clone(), e, "handle opens".into()))?;
+            let add_res = if is_add { Some(srv.add_version(parent, data.clone()).await) } else { None };
+            let snap_res = if is_add { None } else { Some(srv.add_snapshot(parent, data.clone()).await) };
+            let _ = std::fs::remove_file(fdir.join("plan"));
+            let count: usize = std::fs::read_to_string(fdir.join("count")).ok().and_then(|s| s.trim().parse().ok()).unwrap_or(0);
+            if count < *n {
+                // the call issues fewer git commands than that: the fault never happened (another scenario covers the plain call)
+                return Ok(false);
+            }
+            // the process is gone; every replica starts again
+            for h in 0..nhandles(&w.kind) {
+                w.open(h).await.map_err(|e| mm(sc, format!("{at}: restart of handle {h} after the fault"), e, "the backend opens again".into()))?;
+            }
+            if let Some(r) = snap_res {
+                if r.is_ok() || true {
+                    // whether or not the call reported success, the snapshot may have been stored
+                    ch.snapshots.push((parent, data.clone()));
+                }
+                for h in 0..nhandles(&w.kind) {
+                    let srv = w.handle(h).await.map_err(|e| mm(sc, at.clone(), e, "handle opens".into()))?;
+                    match srv.get_snapshot().await {
+                        Ok(None) => {}
+                        Ok(Some((v, d))) => {
+                            if !ch.snapshots.iter().any(|s| s.0 == v && s.1 == d) {
+                                return Err(mm(sc, format!("{at}: get_snapshot on handle {h} after restart"), format!("snapshot for {v}, {} bytes", d.len()), "None, or a snapshot that was stored, intact".into()));
+                            }
+                        }
+                        Err(e) => return Err(mm(sc, format!("{at}: get_snapshot on handle {h} after restart"), format!("Err({e})"), "a result".into())),
+                    }
+                }
+                return Ok(true);
+            }
+            let r = add_res.unwrap();
+            let accept = ch.latest().is_none() || ch.latest() == Some(parent);
+            // what every handle now sees as the child of `parent`
+            let mut seen: Vec<Option<(Uuid, Vec<u8>)>> = Vec::new();
+            for h in 0..nhandles(&w.kind) {
+                let srv = w.handle(h).await.map_err(|e| mm(sc, at.clone(), e, "handle opens".into()))?;
+                match srv.get_child_version(parent).await {
+                    Ok(GetVersionResult::NoSuchVersion) => seen.push(None),
+                    Ok(GetVersionResult::Version { version_id, history_segment, .. }) => seen.push(Some((version_id, history_segment))),
+                    Err(e) => return Err(mm(sc, format!("{at}: get_child_version on handle {h} after restart"), format!("Err({e})"), "the backend is usable after the failure".into())),
+                }
+            }
+            let existing = ch.versions.iter().find(|v| v.1 == parent).map(|v| (v.0, v.2.clone()));
+            if !accept || existing.is_some() {
+                // the request had to be refused: nothing may have changed
+                for (h, sv) in seen.iter().enumerate() {
+                    if *sv != existing {
+                        return Err(mm(sc, format!("{at}: child of the parent as handle {h} sees it after restart"), format!("{:?}", sv.as_ref().map(|x| x.0)), format!("{:?} (a refused request changes nothing)", existing.as_ref().map(|x| x.0))));
+                    }
+                }
+                if let Ok((AddVersionResult::Ok(id), _)) = &r {
+                    return Err(mm(sc, at, format!("accepted as {id}"), "refused".into()));
+                }
+                return Ok(true);
+            }
+            // either fully accepted or not visible at all -- the same for everyone
+            for (h, sv) in seen.iter().enumerate() {
+                if *sv != seen[0] {
+                    return Err(mm(sc, format!("{at}: after restart"), format!("handle 0 sees {:?}, handle {h} sees {:?}", seen[0].as_ref().map(|x| x.0), sv.as_ref().map(|x| x.0)), "the version is either accepted for everyone or visible to nobody".into()));
+                }
+            }
+            match (&seen[0], &r) {
+                (None, Ok((AddVersionResult::Ok(id), _))) => {
+                    return Err(mm(sc, format!("{at}: after restart"), "not visible".into(), format!("version {id}, which the call reported as accepted")));
+                }
+                (Some((id, d)), _) => {
+                    if *d != data {
+                        return Err(mm(sc, format!("{at}: after restart"), format!("version {id} with {} bytes", d.len()), "the bytes submitted".into()));
+                    }
+                    if let Ok((AddVersionResult::Ok(rid), _)) = &r {
+                        if rid != id {
+                            return Err(mm(sc, format!("{at}: after restart"), format!("version {id}"), format!("version {rid} as reported")));
+                        }
+                    }
+                    ch.versions.push((*id, parent, data));
+                }
+                (None, _) => {}
+            }
+            Ok(true)
         }
         Call::GetSnap(h) => {
             if *h >= nhandles(&w.kind) {
@@ -491,6 +641,8 @@ fn main() {
     let tier = get("--tier").unwrap_or("quick".into());
     let jobs: usize = get("--jobs").and_then(|s| s.parse().ok()).unwrap_or(8);
     let only = get("--kinds");
+    let known: Vec<String> = get("--known").map(|k| k.split(";;").map(|x| x.to_string()).filter(|x| !x.is_empty()).collect()).unwrap_or_default();
+    let known = std::sync::Arc::new(known);
     let seed: u64 = get("--seed").and_then(|s| s.parse().ok()).unwrap_or(0);
     let thorough = tier == "thorough";
     let mut scenarios: Vec<Scenario> = Vec::new();
@@ -533,6 +685,7 @@ fn main() {
         let mut n = 0usize;
         let first_handle = |c: &Call| match c {
             Call::Add(h, ..) | Call::GetChild(h, _) | Call::AddSnap(h, ..) | Call::GetSnap(h) | Call::Reopen(h) => *h,
+            Call::FaultAdd(..) | Call::FaultSnap(..) => 0,
         };
         for bi in &base_ix {
             seqs(&alpha, depth, &mut |s| {
@@ -556,6 +709,47 @@ fn main() {
             "handles": nhandles(kind), "seeded_random_walks": walks, "walk_length": wlen, "walk_alphabet": wide.len(), "seed": seed,
         }));
     }
+    // C11: every git command of add_version / add_snapshot on handle 0 fails in turn (three ways), every handle restarts, and the
+    // protocol must still hold while both replicas go on adding versions
+    if only.as_deref().map(|o| o.split(',').any(|k| k == "git-fault")).unwrap_or(false) {
+        let kmax = if thorough { 16usize } else { 9usize };
+        let fb = bases("git-fault");
+        let follow: Vec<Vec<Call>> = vec![
+            vec![Call::Add(1, P::Last, 1), Call::Add(0, P::Last, 3), Call::GetChild(1, P::Prev)],
+            vec![Call::Add(0, P::Last, 3), Call::Add(1, P::Last, 1), Call::GetChild(0, P::Nil)],
+        ];
+        let modes: Vec<&str> = if thorough { vec!["before", "after", "stop"] } else { vec!["before", "after", "stop"] };
+        let mut n = 0usize;
+        for (bi, base) in fb.iter().enumerate() {
+            if !thorough && bi == 1 {
+                continue;
+            }
+            for k in 1..=kmax {
+                for mode in &modes {
+                    for (fi, f) in follow.iter().enumerate() {
+                        if !thorough && fi == 1 && *mode != "after" {
+                            continue;
+                        }
+                        let mut seq = vec![Call::FaultAdd(P::Last, 1, k, mode.to_string())];
+                        if base.is_empty() {
+                            seq = vec![Call::FaultAdd(P::Nil, 1, k, mode.to_string())];
+                        }
+                        seq.extend(f.iter().cloned());
+                        scenarios.push(Scenario { kind: "git-fault".into(), base: base.clone(), seq, walk: false });
+                        n += 1;
+                    }
+                    if bi == 2 && (thorough || *mode == "after") {
+                        let mut seq = vec![Call::FaultSnap(P::Last, 1, k, mode.to_string())];
+                        seq.extend(follow[0].iter().cloned());
+                        scenarios.push(Scenario { kind: "git-fault".into(), base: base.clone(), seq, walk: false });
+                        n += 1;
+                    }
+                }
+            }
+        }
+        bounds.insert("git-fault".into(), serde_json::json!([{"fault_positions": kmax, "fault_kinds": modes, "bases": if thorough { 3 } else { 2 }, "follow_ups": follow.len(), "scenarios": n,
+            "what": "k-th git command of add_version / add_snapshot on handle 0 fails (before / after / from there on), all handles restart, both replicas go on"}]));
+    }
     // slow (git) scenarios first so that the workers finish together
     scenarios.sort_by_key(|s| if s.kind == "local" { 1 } else { 0 });
     if let Some(l) = get("--limit").and_then(|s| s.parse::<usize>().ok()) {
@@ -572,6 +766,7 @@ fn main() {
         let next = next.clone();
         let stop = stop.clone();
         let dir = work.join(format!("w{j}"));
+        let known = known.clone();
         handles.push(std::thread::spawn(move || {
             let rt = tokio::runtime::Builder::new_current_thread().enable_all().build().unwrap();
             let (mut ran, mut skipped, mut found) = (0usize, 0usize, Vec::<Mismatch>::new());
@@ -588,8 +783,9 @@ fn main() {
                     Ok(true) => skipped += 1,
                     Ok(false) => ran += 1,
                     Err(m) => {
+                        let is_known = known.iter().any(|k| *k == m.signature);
                         found.push(m);
-                        if found.len() >= 2 {
+                        if !is_known && found.iter().filter(|m| !known.iter().any(|k| *k == m.signature)).count() >= 2 {
                             stop.store(true, std::sync::atomic::Ordering::Relaxed);
                         }
                     }
@@ -608,20 +804,29 @@ fn main() {
     }
     found.sort_by_key(|m| m.scenario.seq.len() + m.scenario.base.len());
     let mut files = Vec::new();
-    // one replay per backend kind (different kinds may be different findings)
+    // one replay per backend kind among the mismatches that are not known findings; known ones are counted per signature
     let mut seen = std::collections::HashSet::new();
+    let mut known_hits: std::collections::BTreeMap<String, usize> = Default::default();
+    let mut all_sigs: std::collections::BTreeMap<String, usize> = Default::default();
+    let mut new_found = 0usize;
     for m in found.iter() {
+        *all_sigs.entry(m.signature.clone()).or_default() += 1;
+        if known.iter().any(|k| *k == m.signature) {
+            *known_hits.entry(m.signature.clone()).or_default() += 1;
+            continue;
+        }
+        new_found += 1;
         if !seen.insert(m.scenario.kind.clone()) {
             continue;
         }
-        let f = out.join(format!("C08-server-conform-{}.json", m.scenario.kind));
+        let f = out.join(format!("server-conform-{}.json", m.scenario.kind));
         std::fs::write(&f, serde_json::to_string_pretty(m).unwrap()).unwrap();
         files.push(f.to_string_lossy().to_string());
     }
     let summary = serde_json::json!({
         "tier": tier, "scenarios": total, "executed": ran, "outside_contract_skipped": skipped,
-        "mismatches": found.len(), "replays": files, "seconds": t0.elapsed().as_secs_f64(), "bounds": bounds,
+        "mismatches": new_found, "known_finding_hits": known_hits, "signatures": all_sigs, "replays": files, "seconds": t0.elapsed().as_secs_f64(), "bounds": bounds,
     });
     println!("SUMMARY {}", summary);
-    std::process::exit(if found.is_empty() { 0 } else { 1 });
+    std::process::exit(if new_found == 0 { 0 } else { 1 });
 }
